@@ -158,3 +158,50 @@ fn c15_merge_many_windows() {
     kani::cover!(c3, "first window has exactly one run and the second has data");
     core::mem::forget(it);
 }
+
+// @harness c15_merge_many_one_stream
+// @props C15
+// @tier off
+// @kind stretch
+// @timeout 3600
+// @mem 32
+// @sub src/utils/merge.rs ::: const DATA_SIZE: usize = 50000; ::: const DATA_SIZE: usize = 4;
+// @functions utils::merge::merge_sections_many / ValueIter::next on ONE input stream (window accumulation, run extraction, last_val hand-over between windows), work-window constant reduced from 50,000 to 4 bases by source substitution
+// @bounds one stream with two values, the first inside window [0,4), the second inside window [4,8) (symbolic positions), values 1.0 and 2.0; the merged stream is drained (<= 4 next() calls) and compared with the input at every base 0..8
+// @assumes sorted, non-overlapping, non-empty values
+// @cut several streams (sums), values crossing a window boundary, the real window size
+// @witness cover: a gap between the two values; the second value starts exactly at the window boundary
+#[kani::proof]
+#[kani::unwind(6)]
+#[kani::stub(alloc::fmt::format, crate::verif_support::fake_format)]
+fn c15_merge_many_one_stream() {
+    let (a0s, a0e, a1s, a1e): (u32, u32, u32, u32) = (kani::any(), kani::any(), kani::any(), kani::any());
+    kani::assume(a0s < a0e && a0e <= 4 && 4 <= a1s && a1s < a1e && a1e <= 8);
+    let a = TwoVals { v: [Value { start: a0s, end: a0e, value: 1.0 }, Value { start: a1s, end: a1e, value: 2.0 }], n: 2, i: 0 };
+    let mut srcs: Vec<TwoVals> = Vec::with_capacity(1);
+    srcs.push(a);
+    let mut it = merge_sections_many(srcs);
+    let mut out: [(u32, u32, f32); 4] = [(0, 0, 0.0); 4];
+    let mut n = 0usize;
+    let mut done = false;
+    let mut k = 0;
+    while k < 4 {
+        if !done {
+            match it.next() {
+                Some(Ok(v)) => { out[n] = (v.start, v.end, v.value); n += 1; }
+                Some(Err(_)) => { assert!(false, "[no_error] error item from error-free inputs"); }
+                None => { done = true; }
+            }
+        }
+        k += 1;
+    }
+    assert!(done, "[terminates] more than 3 output values for 2 input values");
+    assert!(n == 2, "[count] two separated input values must come out as two values");
+    assert!(out[0].0 == a0s && out[0].1 == a0e && out[0].2 == 1.0, "[first] first value changed");
+    assert!(out[1].0 == a1s && out[1].1 == a1e && out[1].2 == 2.0, "[second] second value changed (stale data from the previous window?)");
+    let c1 = a0e < a1s;
+    kani::cover!(c1, "gap between the values");
+    let c2 = a1s == 4;
+    kani::cover!(c2, "second value starts at the window boundary");
+    core::mem::forget(it);
+}
